@@ -47,6 +47,18 @@ func genEnvCase(t *rapid.T) *EnvCase {
 	want := g.AnyResultType()
 	e := g.ExprTraced(want)
 	c := &EnvCase{}
+	if _, taken := g.Vals["rows"]; !taken && rapid.IntRange(0, 4).Draw(t, "rows") == 0 {
+		// a list of object rows, and a program whose result holds fields of a later row
+		rt := m.Obj(m.Field{Name: "id", T: m.Num}, m.Field{Name: "name", T: m.Str}, m.Field{Name: "ok", T: m.Bool})
+		rows := &m.Val{T: m.List(rt)}
+		for i, n := 0, rapid.IntRange(2, 3).Draw(t, "nrows"); i < n; i++ {
+			rows.L = append(rows.L, gen.Value(t, rt, gen.ValOpt{MaxLen: 2}))
+		}
+		g.FreshVarNamed("rows", rows)
+		last := m.Lit("num", fmt.Sprint(len(rows.L)-1))
+		e = m.ObjE([]string{"r", "x", "y", "z"}, []*m.Expr{e,
+			m.Member(m.Index(m.V("rows"), last), "id"), m.Member(m.Index(m.V("rows"), last.Clone()), "name"), m.Member(m.Index(m.V("rows"), m.Lit("num", "1")), "ok")})
+	}
 	c.E, c.Env, c.Vals, c.Extra, c.Stats = e, g.Env, g.Vals, run.StdHarness, g.Stats
 	// the typing environment is the type of the sample values (host forms derive it from them)
 	for n, v := range c.Vals {
